@@ -80,29 +80,37 @@ func promotedPath(t types.Type, name string) []string {
 	return []string{name}
 }
 
-// zeroOffsets assumes offset 0 for the byte slices and strings reachable from an entry value.
-func (fc *FnCtx) zeroOffsets(st *State, v Val, depth int) {
+// zeroOffsets gives offset 0 (the literal) to the byte slices and strings reachable from an entry value.
+func (fc *FnCtx) zeroOffsets(st *State, v Val, depth int) Val {
 	if depth > 6 {
-		return
+		return v
 	}
 	switch x := v.(type) {
 	case VSlice:
 		if isByteElem(x.Elem) {
 			fc.axiom(eq(x.Off, mkInt(0)))
+			x.Off = mkInt(0)
+			return x
 		}
 	case VStr:
 		fc.axiom(eq(x.Off, mkInt(0)))
+		x.Off = mkInt(0)
+		return x
 	case VPtr:
 		if x.Obj >= 0 {
 			if tv, ok := st.objs[x.Obj]; ok {
-				fc.zeroOffsets(st, tv, depth+1)
+				st.objs[x.Obj] = fc.zeroOffsets(st, tv, depth+1)
 			}
 		}
 	case VStruct:
+		nf := make(map[string]Val, len(x.F))
 		for _, k := range sortedKeys(x.F) {
-			fc.zeroOffsets(st, x.F[k], depth+1)
+			nf[k] = fc.zeroOffsets(st, x.F[k], depth+1)
 		}
+		x.F = nf
+		return x
 	}
+	return v
 }
 
 // ---------------------------------------------------------------------------
@@ -128,8 +136,11 @@ func (fc *FnCtx) initFrame(st *State) {
 	fa.set = true
 	fa.nextR0 = st.nextR
 	ct := fc.contract
-	if ct == nil || ct.ModAll || fc.lenient {
+	if ct == nil || ct.ModAll || fc.lenient || ct.FrameAssumed {
 		fa.all = true
+		if ct != nil && ct.FrameAssumed {
+			fc.assumptions["the modifies clause of "+ct.Name+" is assumed, not checked against its body (frame assumed)"] = true
+		}
 		return
 	}
 	modPaths := map[string]bool{}
